@@ -183,6 +183,25 @@ def run(ctx):
     okc = len(wc) == 1 and all(kw(wc[0], k) is not None for k in ("form_name", "fallback_form_name", "default_language", "warnings")) and norm(kw(wc[0], "form_name")) == "form_name" \
         and norm(kw(wc[0], "fallback_form_name")) == "workbook_dict.fallback_form_name" and norm(kw(wc[0], "default_language")) == "default_language"
     r3.check(okc, "convert:arguments", "convert() forwards form_name / default_language and the backend's fallback name", cv.loc())
+    # the legacy entry point (SurveyReader / create_survey_from_xls): given an open file AND its name, the definition is
+    # read through the name - only a path carries the file name that id and title fall back to
+    pf = ctx.func("pyxform.xls2json:parse_file_to_json", "C11.R3")
+    for desc, path, fobj, want_src in (("path only", "dir/my_form.xlsx", None, "dir/my_form.xlsx"), ("open file with its name", "dir/my_form.xlsx", Obj(None, {"name": "dir/my_form.xlsx"}, name="fileobj"), "dir/my_form.xlsx")):
+        seen = {}
+
+        def h_get(i, a, k, n, seen=seen):
+            src = k.get("xlsform", a[0] if a else None)
+            seen["src"] = src
+            return Obj(None, {"fallback_form_name": ("my_form" if isinstance(src, str) else None)}, name="workbook")
+        itp = ctx.interp("C11.R3", hooks={"fnname:get_xlsform": h_get, "fnname:workbook_to_json": lambda i, a, k, n: dict(k)})
+        itp.reset([])
+        try:
+            out = itp.call_function(pf, [], {"path": path, "file_object": fobj}, None, pf.node)
+            fb = out.get("fallback_form_name") if isinstance(out, dict) else None
+        except Raised as e:
+            fb = f"raises {e.exc_name}"
+        r3.check(seen.get("src") == want_src and fb == "my_form", f"parse_file_to_json[{desc}]", "the workbook is read by its path, so the file name is available as the fallback id / title", pf.loc(),
+                 why_fail=f"read from {seen.get('src')!r}; fallback name {fb!r}")
     rules.append(r3)
 
     # ------------------------------------------------------------------ R5
